@@ -32,6 +32,43 @@ fn adjust_apply() {
     }
 }
 
+//@ harness combine_distance_total kind=complete fns=Placement::combine_distance
+#[kani::proof]
+fn combine_distance_total() {
+    // a placement adjustment may meet ANY earlier placement of the glyph (an earlier lookup may have anchored it): never a panic;
+    // plain distances add up, an anchored mark has the adjustment added to its base anchor, anything else is replaced by the distance
+    let a1 = Anchor { x: kani::any(), y: kani::any() };
+    let a2 = Anchor { x: kani::any(), y: kani::any() };
+    let idx: usize = kani::any();
+    let (x1, y1): (i32, i32) = (kani::any(), kani::any());
+    // adjustments come from 16-bit value records (+ a rounded variation delta): far inside the i32 range
+    let (x2, y2): (i32, i32) = (kani::any(), kani::any());
+    kani::assume(x2 >= -0x20000 && x2 <= 0x20000 && y2 >= -0x20000 && y2 <= 0x20000);
+    let which: u8 = kani::any();
+    let mut p = match which {
+        0 => Placement::None,
+        1 => Placement::Distance(x1, y1),
+        2 => Placement::MarkAnchor(idx, a1, a2),
+        3 => Placement::MarkOverprint(idx),
+        _ => Placement::CursiveAnchor(idx, kani::any(), a1, a2),
+    };
+    p.combine_distance(x2, y2);
+    match which {
+        1 => {
+            let (sx, sy) = (x1 as i64 + x2 as i64, y1 as i64 + y2 as i64);
+            let fits = sx >= i32::MIN as i64 && sx <= i32::MAX as i64 && sy >= i32::MIN as i64 && sy <= i32::MAX as i64;
+            assert!(!fits || matches!(p, Placement::Distance(x, y) if x as i64 == sx && y as i64 == sy), "distances accumulate");
+        }
+        2 => {
+            let (sx, sy) = (a1.x as i32 + x2, a1.y as i32 + y2);
+            let fits = x2 >= -32768 && x2 <= 32767 && y2 >= -32768 && y2 <= 32767 && sx >= -32768 && sx <= 32767 && sy >= -32768 && sy <= 32767;
+            assert!(matches!(p, Placement::MarkAnchor(i, _, b2) if i == idx && b2 == a2), "the mark stays anchored to the same base with the same mark anchor");
+            assert!(!fits || matches!(p, Placement::MarkAnchor(_, b1, _) if b1.x as i32 == sx && b1.y as i32 == sy), "the adjustment moves the base anchor of an anchored mark");
+        }
+        _ => assert!(matches!(p, Placement::Distance(x, y) if x == x2 && y == y2)),
+    }
+}
+
 fn put16(b: &mut [u8], at: usize, v: u16) { b[at] = (v >> 8) as u8; b[at + 1] = v as u8; }
 
 //@ harness kern_accumulate kind=bounded:2subtables fns=apply_kern,KernTable::read,KernTable::sub_tables,KernSubtable::is_horizontal,KernSubtable::is_minimum,KernSubtable::is_cross_stream,KernSubtable::is_override,KernData::lookup timeout=900
